@@ -18,7 +18,7 @@ package deps
 //@   ensures ok: imp(isNil(err), kvhas == store(old(kvhas), keyid(bytes(key)), false))
 //@   ensures failed: imp(!isNil(err), kvhas == old(kvhas))
 //@ trusted func (db *badger.DB) Update(fn func(*badger.Txn) error) (err error)
-//@   applies fn rollback kvhas
+//@   applies fn rollback kvhas commit
 //@ trusted func (db *badger.DB) View(fn func(*badger.Txn) error) (err error)
 //@   applies fn rollback kvhas
 //@
@@ -28,3 +28,67 @@ package deps
 //@   ensures !isNil(t)
 //@ trusted func (t reflect.Type) String() (s string)
 //@   ensures true
+//@
+//@ # ---- iterator (assumed, T5) -------------------------------------------------------------------
+//@ # A prefix scan `for it.Seek(s); it.ValidForPrefix(p); it.Next()` enumerates the scan sequence
+//@ # key(0), ..., key(itn-1): all keys of the transaction's view that have the prefix p, in ascending
+//@ # bytewise order, or in descending order for a reverse iterator. key(i) has the bytes
+//@ # skArr(i)[0..skLen(i)). itpos is the iterator's position in that sequence.
+//@ #   forward:  Seek(p) positions at the smallest key >= p, which is key(0) when any key has the prefix.
+//@ #   reverse:  Seek(s) positions at the largest key <= s. With s == p this is a key that has the prefix
+//@ #             only when it IS p; with s == p ++ [0xFF] it is key(0) of the descending sequence,
+//@ #             provided no key extends p ++ [0xFF] (stated assumption of the reverse scan).
+//@ uninterpreted func skArr(p int) arr
+//@ uninterpreted func skLen(p int) int
+//@ ghostvar itn int
+//@ ghostvar itpos int
+//@ ghostvar itrev bool
+//@ ghostvar itopen int
+//@ ghostvar itseek string
+//@ trusted func (txn *badger.Txn) NewIterator(opt badger.IteratorOptions) (it *badger.Iterator)
+//@   modifies ghost.itrev, ghost.itopen, alloc
+//@   ensures it != nil && itrev == opt.Reverse && itopen == old(itopen) + 1
+//@ trusted func (it *badger.Iterator) Close()
+//@   modifies ghost.itopen
+//@   ensures itopen == old(itopen) - 1
+//@ trusted func (it *badger.Iterator) Seek(key []byte)
+//@   modifies ghost.itpos, ghost.itseek
+//@   ensures itpos == 0 && itn >= 0 && same(itseek, bytes(key))
+//@ trusted func (it *badger.Iterator) Next()
+//@   modifies ghost.itpos
+//@   ensures itpos == old(itpos) + 1
+//@ trusted func (it *badger.Iterator) ValidForPrefix(prefix []byte) (ok bool)
+//@   ensures sound: imp(ok, 0 <= itpos && itpos < itn)
+//@   ensures fwd: imp(!itrev && itseek == bytes(prefix), ok == (0 <= itpos && itpos < itn))
+//@   ensures rev.ff: imp(itrev && len(itseek) == len(prefix) + 1 && itseek[0:len(prefix)] == bytes(prefix) && itseek[len(prefix)] == 255, ok == (0 <= itpos && itpos < itn))
+//@   ensures rev.same: imp(itrev && itseek == bytes(prefix) && ok, skLen(itpos) == len(prefix))
+//@ trusted func (it *badger.Iterator) Item() (item *badger.Item)
+//@   ensures item != nil
+//@ trusted func (item *badger.Item) Key() (k []byte)
+//@   ensures ref(k) != 0 && same(bytes(k), strOf(skArr(itpos), skLen(itpos))) && cap(k) >= len(k)
+//@
+//@ # ---- taskqueue.TaskQueue (assumed, T5) ----------------------------------------------------------
+//@ # Tasks run one at a time, in the order queued, on the queue's goroutine.
+//@ # tqn: tasks queued so far; tqdone: tasks that have run to completion (tqdone <= tqn, never decreases).
+//@ # The queue's own Flush returns when no task is waiting; the task dequeued last may still be running.
+//@ ghostvar tqn int
+//@ ghostvar tqdone int
+//@ ghostvar chtask arr
+//@ ghostvar chclosed arrb
+//@ trusted func (tq *taskqueue.TaskQueue) Do(task func())
+//@   modifies ghost.tqn, ghost.tqdone
+//@   ensures tqn == old(tqn) + 1 && old(tqdone) <= tqdone && tqdone <= tqn
+//@ trusted func (tq *taskqueue.TaskQueue) TryDo(task func()) (ok bool)
+//@   modifies ghost.tqn, ghost.tqdone
+//@   ensures tqn == old(tqn) + ite(ok, 1, 0) && old(tqdone) <= tqdone && tqdone <= tqn
+//@ trusted func (tq *taskqueue.TaskQueue) Flush()
+//@   modifies ghost.tqdone
+//@   ensures old(tqdone) <= tqdone && tqdone <= tqn && tqdone >= tqn - 1
+//@ # chtask[c] = k > 0: channel c is closed by the k-th queued task and by nobody else. A receive from such a
+//@ # channel returns after that task has started, hence after the k-1 tasks queued before it have completed.
+//@ trusted func builtin.recvQueued(c chan struct{}) (v struct{})
+//@   modifies ghost.tqdone
+//@   ensures old(tqdone) <= tqdone && tqdone <= tqn && imp(chtask[ref(c)] > 0, tqdone >= chtask[ref(c)] - 1)
+//@ trusted func builtin.closeQueued(c chan struct{})
+//@   modifies ghost.chclosed
+//@   ensures chclosed == store(old(chclosed), ref(c), true)
